@@ -89,7 +89,18 @@ func (k *checker) belowFloor(what string, want, got any, err error) {
 // must be the value as of block n - never a value reconstructed from partially pruned history.
 func (k *checker) CheckStateErrorOrCorrect(n int, g *chaingen.Gen) {
 	b := k.m.Chain[n]
-	r, closer, err := k.n.BC.StateAtBlockNumber(b.B.Number)
+	k.stateErrorOrCorrect(b, g, "StateAtBlockNumber", func() (core.StateReader, func() error, error) {
+		return k.n.BC.StateAtBlockNumber(b.B.Number)
+	})
+	// the same block named by its hash (a hash->number lookup left behind below the floor must not
+	// open a "historical" reader over history that is gone)
+	k.stateErrorOrCorrect(b, g, "StateAtBlockHash", func() (core.StateReader, func() error, error) {
+		return k.n.BC.StateAtBlockHash(b.B.Hash)
+	})
+}
+
+func (k *checker) stateErrorOrCorrect(b *chaingen.Block, g *chaingen.Gen, via string, open func() (core.StateReader, func() error, error)) {
+	r, closer, err := open()
 	k.n.c.Evals++
 	if err != nil {
 		return
@@ -103,16 +114,16 @@ func (k *checker) CheckStateErrorOrCorrect(n int, g *chaingen.Gen) {
 		}
 		if !c.System {
 			if ch, err := r.ContractClassHash(&a); err == nil && !ch.Equal(&c.ClassHash) {
-				k.fail("pruned_partial", "state.ContractClassHash", "StateAtBlockNumber(%d).ContractClassHash(%s)=%s want %s (history partially pruned)", b.B.Number, a.String(), ch.String(), c.ClassHash.String())
+				k.fail("pruned_partial", "state.ContractClassHash", "%s(%d).ContractClassHash(%s)=%s want %s (history partially pruned)", via, b.B.Number, a.String(), ch.String(), c.ClassHash.String())
 			}
 			if nn, err := r.ContractNonce(&a); err == nil && !nn.Equal(&c.Nonce) {
-				k.fail("pruned_partial", "state.ContractNonce", "StateAtBlockNumber(%d).ContractNonce(%s)=%s want %s (history partially pruned)", b.B.Number, a.String(), nn.String(), c.Nonce.String())
+				k.fail("pruned_partial", "state.ContractNonce", "%s(%d).ContractNonce(%s)=%s want %s (history partially pruned)", via, b.B.Number, a.String(), nn.String(), c.Nonce.String())
 			}
 		}
 		for _, sl := range k.querySlots(g) {
 			want := c.Storage[sl]
 			if got, err := r.ContractStorage(&a, &sl); err == nil && !got.Equal(&want) {
-				k.fail("pruned_partial", "state.ContractStorage", "StateAtBlockNumber(%d).ContractStorage(%s,%s)=%s want %s (history partially pruned)", b.B.Number, a.String(), sl.String(), got.String(), want.String())
+				k.fail("pruned_partial", "state.ContractStorage", "%s(%d).ContractStorage(%s,%s)=%s want %s (history partially pruned)", via, b.B.Number, a.String(), sl.String(), got.String(), want.String())
 			}
 		}
 	}
@@ -503,6 +514,13 @@ func C16(c *sim.Ctx) {
 			}
 			for i := target; i <= h; i++ {
 				rk.CheckBlock(mm.Chain[i])
+			}
+			// what the interrupted and the resumed prune left below the floor: refused or correct
+			for i := uint64(0); i < target; i++ {
+				if mm.Chain[i] != nil {
+					rk.CheckBelowFloor(mm.Chain[i], false)
+					rk.CheckStateErrorOrCorrect(int(i), d.g)
+				}
 			}
 			c.Probe("prune_resumed_after_crash")
 		}
